@@ -90,6 +90,9 @@ func init() {
 		"BaseObj.bear({a: 1})@{|x| x}", "1.try.{|t| {_iter: nil}@{|x| x}}.err.msg", "{_iter: 5}$(0){|a, x| a}", "h9 := {|| BaseObj.bear({})@{|y| y}}\nh9()", "nil.try.{|t| BaseObj.bear({})$(0){|a, y| a}}.err?")
 	probePool = append(probePool, "Box := {v: 6, _literalProxy: m{|f| \"boxed(#{f(.v)})\"}}\nBox.{|x| x + 1}", "Box := {v: 2, _literalProxy: m{|f| [f(.v)]}}\nb2 := {|x| x * 5}\nBox.^b2", "Box := {_literalProxy: m{|f| 'proxied}}\n[Box, Box]@{|x| x}",
 		"{_iter: nil}@{|x| x}", "q := {|| BaseObj.bear({})@{|y| y}}\nq()", "BaseObj.bear({z: 1})$(0){|a, y| a}", "1.try.{|t| {_iter: nil}@{|x| x}}.err.msg")
+	historyPool = append(historyPool, "1.try.{|t| \"[1, \".eval}.err?", "\"[1, \".eval", "ev := {|| \"1 +* 2\".eval}\nev()", "1.try.{|t| \"{a: \".evalEnv}.err.msg", "\"1 + 1\".eval", "\"q7 := 5\".evalEnv.keys",
+		"secretOfFirst := 42; invite!(\"dummy_native\"); message", "import(\"dummy_native\").keys", "mySecret := 7\ninvite!(\"http\")\nmySecret")
+	probePool = append(probePool, "\"[1, \".eval", "r2 := {|| \"1 +* 2\".eval}\nr2()", "\"{a: \".evalEnv", "import(\"dummy_native\").keys", "invite!(\"dummy_native\"); secretOfFirst", "invite!(\"dummy_native\"); message", "import(\"http\").keys.len", "invite!(\"http\"); mySecret")
 	probePool = append(probePool, "3.zzz9", "Int['zzz9]", "\"a\".zzz9", "{}.zzz9", "[].zzz9", "nil.zzz8", "{|x: 0| \\_}(**{zzz9: 1})")
 }
 
@@ -388,6 +391,31 @@ func head(s string) string {
 func succeeds(src string) bool {
 	o := interp.Shared().Run(src, interp.Opts{})
 	return o.Kind == interp.Value
+}
+
+// TestFirstUseOfModules: the very first use of each native module in the life of this process is an `invite!` from a scope
+// that already holds variables (whatever the first use caches must not contain them). First test of the file.
+func TestFirstUseOfModules(t *testing.T) {
+	vt.SkipIfReplay(t)
+	for _, c := range []Case{
+		{Embedding: "playground", History: []string{"secretOfFirst := 42; other := [1]; invite!(\"dummy_native\"); message"}, Probe: "import(\"dummy_native\").keys"},
+		{Embedding: "playground", History: []string{"secretOfFirst := 42; invite!(\"dummy_native\"); message"}, Probe: "invite!(\"dummy_native\"); secretOfFirst"},
+		{Embedding: "playground", History: []string{"mySecret := 7\ninvite!(\"http\")\nmySecret"}, Probe: "invite!(\"http\"); mySecret"},
+		{Embedding: "playground", History: []string{"mySecret := 7\ninvite!(\"http\")\nmySecret"}, Probe: "import(\"http\").keys.len"},
+	} {
+		c := c
+		sig, detail, err := judge(&c)
+		if err != nil {
+			vt.Incomplete(err.Error())
+			return
+		}
+		vt.Eval()
+		vt.Class("first use of a native module is an invite! from a populated scope")
+		vt.NonTrivial("first-use"+c.Probe, func() any { return map[string]any{"history": c.History, "probe": c.Probe} })
+		if sig != "" {
+			vt.Record(sig, detail, c)
+		}
+	}
 }
 
 func TestHistories(t *testing.T) {
